@@ -7,8 +7,11 @@ import (
 	"math/big"
 	"math/bits"
 	"math/rand"
+	"sync"
+	"time"
 
 	xmpp "gosrc.io/xmpp"
+	"gosrc.io/xmpp/stanza"
 )
 
 // C19: backoff (backoff.go) vs Model/Backoff.v
@@ -16,25 +19,40 @@ import (
 // mode 0: durationForAttempt(N) on a fresh value     (VerifBackoffForAttempt)
 // mode 1: N calls of duration() on a fresh value     (VerifBackoffSeq)
 // mode 2: K calls, reset(), N calls                  (VerifBackoffSeqReset)
+// mode 3: a real Client + StreamManager against the scripted server: session up, then
+//
+//	for every entry m of Outages: drop, m transient negotiation failures, success;
+//	finally Stop. Observed: the wait between the end of failed attempt n of an
+//	outage and the next connection attempt (c19RunSM).
 type c19In struct {
-	Mode     int  `json:"mode"`
-	NoJitter bool `json:"nojitter"`
-	Base     int  `json:"base"`
-	Factor   int  `json:"factor"`
-	Cap      int  `json:"cap"`
-	K        int  `json:"k,omitempty"`
-	N        int  `json:"n"`
+	Mode     int   `json:"mode"`
+	NoJitter bool  `json:"nojitter"`
+	Base     int   `json:"base"`
+	Factor   int   `json:"factor"`
+	Cap      int   `json:"cap"`
+	K        int   `json:"k,omitempty"`
+	N        int   `json:"n"`
+	Outages  []int `json:"outages,omitempty"`
 
 	// filled by Run: what the implementation returned (ns), or panicked. With jitter
 	// the observed values are handed to the model as its rand oracle (see RunC19.v).
 	ran      bool
 	panicked bool
 	ns       []int64
+	// mode 3: observed failed attempts per outage, the waits (ns) after each of them, and
+	// why the scenario did not complete ("" = it did)
+	smFails []int
+	smGaps  [][]int64
+	smErr   string
 }
 
 const (
 	c19Bound = 1 << 40 // the theorems' hypothesis: 0 < base, factor, cap <= 2^40 (ms)
 	c19Ms    = 1000000 // ns per ms
+	// mode 3: a wait is measured from the server seeing the failed attempt end to the server
+	// accepting the next connection; it may exceed the back-off delay by connection set-up and
+	// scheduling. Upper bounds only, with this much slack, so that load cannot raise a false alarm.
+	c19SlackMs = 500
 )
 
 type c19 struct{}
@@ -45,7 +63,7 @@ func (c19) ID() string    { return "C19" }
 func (c19) RunFn() string { return "run_C19" }
 func (c19) Workers() int  { return 8 }
 func (c19) Rule() string {
-	return "random (base, factor, cap) in [1, 2^40] (small values, powers of two, values at and just below 2^40, zero = default), with and without jitter, through durationForAttempt(n) (n = 0..70, around the attempt where base*factor^n passes the cap, around the attempts where factor^n and base*factor^n overflow float64, 2^31-1 / 2^31 / 2^31+1, random up to 2^31, 2^53, 2^62, MaxInt64), duration() sequences (up to 70 calls, a few past the float64 overflow point) and duration() sequences after k calls and reset(); a malformed stream with negative caps (rand.Intn panic) and a few fixed caps above the stated bound (D22); distinct = distinct (mode, jitter, bit lengths of base/factor/cap, class of n relative to the cap crossing / float overflow); non-trivial = positive parameters within the bound, factor >= 2, base < cap and at least one observed attempt number >= 1"
+	return "random (base, factor, cap) in [1, 2^40] (small values, powers of two, values at and just below 2^40, zero = default), with and without jitter, through durationForAttempt(n) (n = 0..70, around the attempt where base*factor^n passes the cap, around the attempts where factor^n and base*factor^n overflow float64, 2^31-1 / 2^31 / 2^31+1, random up to 2^31, 2^53, 2^62, MaxInt64), duration() sequences (up to 70 calls, a few past the float64 overflow point) and duration() sequences after k calls and reset(); cap below / equal to the base and cap = base*factor^k-1, +0, +1 (with attempt 0, factor 1 and the attempts around k) through both APIs; StreamManager scenarios (real Client + StreamManager on the scripted TCP server: session, drop, 5-8 transient negotiation failures, success, second drop, 2-3 failures, success, Stop): the wait after the n-th failed attempt of EVERY outage, measured on the server between the end of that attempt and the next accept, is at most 20*2^n ms + 500 ms slack, i.e. the sequence restarts after a successful reconnection (Coq: C19_outages_restart / C19_formula_seq_after_reset give the bounds the model returns for the observed attempt counts; C19_jitter_range makes the no-jitter value the bound); a malformed stream with negative caps (rand.Intn panic) and a few fixed caps above the stated bound (D22); distinct = distinct (mode, jitter, bit lengths of base/factor/cap, class of n relative to the cap crossing / float overflow); non-trivial = positive parameters within the bound, factor >= 2, base < cap and at least one observed attempt number >= 1"
 }
 
 // ---- exact arithmetic shared by generator and oracle (math/big; no model) ----
@@ -211,6 +229,16 @@ func (c19) Gen(r *rand.Rand, tier string) []interface{} {
 	}
 	var out []interface{}
 	add := func(in c19In) { c := in; out = append(out, &c) }
+	// StreamManager scenarios first (they take seconds: start them early)
+	add(c19In{Mode: 3, Outages: []int{6, 3}})
+	add(c19In{Mode: 3, Outages: []int{7, 3}})
+	add(c19In{Mode: 3, Outages: []int{6, 2, 2}})
+	if tier == "thorough" {
+		for i := 0; i < 6; i++ {
+			add(c19In{Mode: 3, Outages: []int{5 + r.Intn(4), 2 + r.Intn(2)}})
+		}
+		add(c19In{Mode: 3, Outages: []int{0, 6, 0, 3}})
+	}
 	// fixed corners: defaults, the cap by default, reset regressions, D5 shape
 	for _, nj := range []bool{true, false} {
 		add(c19In{Mode: 0, NoJitter: nj, N: 0})
@@ -227,6 +255,19 @@ func (c19) Gen(r *rand.Rand, tier string) []interface{} {
 		add(c19In{Mode: 1, NoJitter: nj, Base: 70, Factor: 1, Cap: 50, N: 6})
 		add(c19In{Mode: 1, NoJitter: nj, Base: 1, Factor: 2, Cap: 1000, N: 1100}) // past 2^1024
 		add(c19In{Mode: 0, NoJitter: nj, Base: 1, Factor: 1, Cap: 1, N: math.MaxInt64})
+		// cap below / equal to the base: clamped from attempt 0 on, with factor 1 too
+		for _, f := range []int{1, 2, 10} {
+			add(c19In{Mode: 0, NoJitter: nj, Base: 1000, Factor: f, Cap: 50, N: 0})
+			add(c19In{Mode: 0, NoJitter: nj, Base: 1000, Factor: f, Cap: 50, N: 1})
+			add(c19In{Mode: 0, NoJitter: nj, Base: 1000, Factor: f, Cap: 1000, N: 0})
+			add(c19In{Mode: 0, NoJitter: nj, Base: 0, Factor: f, Cap: 10, N: 0}) // default base 20 > cap
+			add(c19In{Mode: 1, NoJitter: nj, Base: 1000, Factor: f, Cap: 50, N: 4})
+			add(c19In{Mode: 1, NoJitter: nj, Base: 1000, Factor: f, Cap: 999, N: 4})
+			add(c19In{Mode: 1, NoJitter: nj, Base: 1000, Factor: f, Cap: 1000, N: 4})
+			add(c19In{Mode: 1, NoJitter: nj, Base: 1000, Factor: f, Cap: 1001, N: 4})
+			add(c19In{Mode: 2, NoJitter: nj, Base: 1000, Factor: f, Cap: 50, K: 3, N: 4})
+			add(c19In{Mode: 2, NoJitter: nj, Base: 0, Factor: f, Cap: 7, K: 3, N: 4})
+		}
 	}
 	// D22 (known finding): caps above the stated bound; values chosen so that float64
 	// is still exact (below 2^53, or saturating at a cap that is a power of two)
@@ -263,11 +304,47 @@ func (c19) Gen(r *rand.Rand, tier string) []interface{} {
 				in.Cap = c19Val(r)
 			}
 		}
+		edgeK := -1
+		if in.Cap > 0 && r.Intn(5) == 0 { // cap placed relative to the base
+			eb0, ef0, _ := c19Eff(&in)
+			switch r.Intn(4) {
+			case 0: // below the base
+				in.Cap = 1 + r.Intn(eb0)
+			case 1: // equal to the base
+				in.Cap = eb0
+			default: // base*factor^k - 1, + 0, + 1
+				p := big.NewInt(int64(eb0))
+				k, kmax := 0, r.Intn(8)
+				for ; k < kmax; k++ {
+					q := new(big.Int).Mul(p, big.NewInt(int64(ef0)))
+					if q.Cmp(big.NewInt(c19Bound-1)) > 0 {
+						break
+					}
+					p = q
+				}
+				edgeK = k
+				in.Cap = int(p.Int64()) + r.Intn(3) - 1
+				if in.Cap < 1 {
+					in.Cap = 1
+				}
+			}
+			if r.Intn(3) == 0 {
+				in.Factor = 1
+			}
+		}
 		eb, ef, ec := c19Eff(&in)
 		switch m := r.Intn(10); {
 		case m < 5:
 			in.Mode = 0
 			in.N = c19N(r, eb, ef, ec)
+			if edgeK >= 0 && r.Intn(2) == 0 {
+				in.N = edgeK + r.Intn(3) - 1
+				if in.N < 0 {
+					in.N = 0
+				}
+			} else if ec > 0 && ec <= eb && r.Intn(2) == 0 {
+				in.N = r.Intn(2)
+			}
 		case m < 8:
 			in.Mode = 1
 			in.N = c19SeqLen(r, eb, ef, ec)
@@ -309,6 +386,9 @@ func (c19) Decode(raw json.RawMessage) (interface{}, error) {
 func (c19) Run(inp interface{}) (obs Sx) {
 	in := inp.(*c19In)
 	in.ran, in.panicked, in.ns = true, false, nil
+	if in.Mode == 3 {
+		return c19RunSM(in)
+	}
 	defer func() {
 		if e := recover(); e != nil {
 			in.panicked, in.ns = true, nil
@@ -357,6 +437,13 @@ func (c19) Input(inp interface{}) Sx {
 	if !in.ran {
 		panic("c19: Input called before Run (the jitter oracle values come from the observation)")
 	}
+	if in.Mode == 3 {
+		ms := make([]Sx, len(in.smFails))
+		for i, m := range in.smFails {
+			ms[i] = Zi(m)
+		}
+		return L(Z(3), B(true), Z(0), Z(0), Z(0), Z(0), Zi(len(ms)), LS(ms))
+	}
 	calls := in.N
 	if in.Mode == 0 {
 		calls = 1
@@ -379,6 +466,9 @@ func (c19) Input(inp interface{}) Sx {
 
 func (c19) Oracle(inp interface{}, obs Sx) (string, string) {
 	in := inp.(*c19In)
+	if in.Mode == 3 {
+		return c19OracleSM(in)
+	}
 	base, factor, cp := c19Eff(in)
 	if base <= 0 || factor <= 0 || cp <= 0 {
 		return "", "" // the property speaks about positive parameters only
@@ -462,6 +552,11 @@ func (c19) Oracle(inp interface{}, obs Sx) (string, string) {
 
 func (c19) Key(inp interface{}) (string, bool) {
 	in := inp.(*c19In)
+	if in.Mode == 3 {
+		hist("mode:3")
+		hist("stream:stream-manager")
+		return fmt.Sprintf("3/%v", in.Outages), len(in.Outages) >= 2
+	}
 	base, factor, cp := c19Eff(in)
 	stream := "valid"
 	switch {
@@ -505,6 +600,20 @@ func (c19) Key(inp interface{}) (string, bool) {
 		}
 	}
 	hist("n:" + ncls)
+	switch {
+	case cp > 0 && cp < base:
+		hist("cap:below-base")
+		if top == 0 || in.Mode != 0 {
+			hist("cap:below-base,attempt-0")
+		}
+		if factor == 1 {
+			hist("cap:below-base,factor-1")
+		}
+	case cp == base:
+		hist("cap:equal-base")
+	case cp > 0:
+		hist("cap:above-base")
+	}
 	if factor == 1 {
 		hist("factor:1")
 	} else {
@@ -519,4 +628,228 @@ func (c19) Key(inp interface{}) (string, bool) {
 	key := fmt.Sprintf("%d/%v/%d/%d/%d/%s/%d", in.Mode, in.NoJitter, bl(in.Base), bl(in.Factor), bl(in.Cap), ncls, bl(in.K))
 	nontrivial := stream != "malformed-negative-cap" && stream != "above-bound" && factor >= 2 && base < cp && top >= 1
 	return key, nontrivial
+}
+
+// ---- mode 3: the waits of a real StreamManager's retry loop ----
+
+func c19RunSM(in *c19In) Sx {
+	in.smFails, in.smGaps, in.smErr = nil, nil, ""
+	fail := func(why string) Sx {
+		in.smErr = why
+		return L(SBytes("incomplete"), SBytes(why))
+	}
+	cin := c13In{}
+	for _, m := range in.Outages {
+		rd := c13Round{Term: "drop"}
+		for i := 0; i < m; i++ {
+			rd.Fails = append(rd.Fails, "transient")
+		}
+		cin.Rounds = append(cin.Rounds, rd)
+	}
+	scripts, good, _ := c13Scripts(cin)
+	srv, err := startScriptedServer(scripts)
+	if err != nil {
+		return fail("listen failed")
+	}
+	defer srv.stop()
+
+	// server-side clock: when each connection was accepted and when it ended, sampled from
+	// the scripted server's own records (resolution well below the slack)
+	var tmu sync.Mutex
+	acceptAt, endedAt := map[int]time.Time{}, map[int]time.Time{}
+	quit := make(chan struct{})
+	var pwg sync.WaitGroup
+	pwg.Add(1)
+	go func() {
+		defer pwg.Done()
+		for {
+			now := time.Now()
+			srv.mu.Lock()
+			tmu.Lock()
+			for i := 0; i < srv.accepted && i < len(srv.logs); i++ {
+				if _, ok := acceptAt[i]; !ok {
+					acceptAt[i] = now
+				}
+				if _, ok := endedAt[i]; !ok && srv.logs[i].Ended != "" {
+					endedAt[i] = now
+				}
+			}
+			tmu.Unlock()
+			srv.mu.Unlock()
+			select {
+			case <-quit:
+				return
+			case <-time.After(150 * time.Microsecond):
+			}
+		}
+	}()
+	stopPoll := func() { close(quit); pwg.Wait() }
+
+	cfg := &xmpp.Config{
+		TransportConfiguration: xmpp.TransportConfiguration{Address: srv.addr(), Domain: srvDomain, ConnectTimeout: 1},
+		Jid:                    "user@" + srvDomain, Credential: xmpp.Password("secret"), Insecure: true,
+		ConnectTimeout: 1,
+	}
+	var mu sync.Mutex
+	post := 0
+	router := xmpp.NewRouter()
+	router.NewRoute().HandlerFunc(func(s xmpp.Sender, p stanza.Packet) {})
+	client, err := xmpp.NewClient(cfg, router, func(error) {})
+	if err != nil {
+		stopPoll()
+		return fail("NewClient failed")
+	}
+	sm := xmpp.NewStreamManager(client, func(s xmpp.Sender) {
+		mu.Lock()
+		post++
+		mu.Unlock()
+	})
+	runDone := make(chan error, 1)
+	go func() { runDone <- sm.Run() }()
+	returned := false
+	waitPost := func(n int, d time.Duration) bool {
+		deadline := time.Now().Add(d)
+		for time.Now().Before(deadline) {
+			mu.Lock()
+			p := post
+			mu.Unlock()
+			if p >= n {
+				return true
+			}
+			select {
+			case <-runDone:
+				returned = true
+				return false
+			default:
+			}
+			time.Sleep(500 * time.Microsecond)
+		}
+		return false
+	}
+	why := ""
+	connIdx, sessions := 0, 0
+	if waitPost(1, 5*time.Second) {
+		sessions = 1
+		for o, m := range in.Outages {
+			time.Sleep(3 * time.Millisecond)
+			srv.drop(connIdx)
+			connIdx += m + 1
+			if !waitPost(sessions+1, 40*time.Second) {
+				why = fmt.Sprintf("no session after outage %d", o+1)
+				break
+			}
+			sessions++
+		}
+	} else {
+		why = "no first session"
+	}
+	if !returned {
+		stopped := make(chan struct{})
+		go func() { sm.Stop(); close(stopped) }()
+		select {
+		case <-runDone:
+		case <-time.After(5 * time.Second):
+		}
+		select {
+		case <-stopped:
+		case <-time.After(3 * time.Second):
+		}
+	}
+	time.Sleep(5 * time.Millisecond)
+	stopPoll()
+	if why != "" {
+		return fail(why)
+	}
+	// which connections carried a session: a good script whose every group was consumed
+	logs := srv.snapshot()
+	established := make([]bool, len(logs))
+	for i, lg := range logs {
+		if i < len(scripts) && good[i] {
+			n := 0
+			for _, e := range lg.Elems {
+				if e.Kind == "open" || e.Kind == "auth" || e.Kind == "bind" {
+					n++
+				}
+			}
+			established[i] = n >= len(scripts[i].Groups)
+		}
+	}
+	if len(logs) == 0 || !established[0] {
+		return fail("first connection carried no session")
+	}
+	// outages as observed: the failed attempts between two sessions, and the wait after each
+	tmu.Lock()
+	defer tmu.Unlock()
+	var fails []int
+	var gaps [][]int64
+	cur, curGaps := 0, []int64{}
+	for i := 1; i < len(logs); i++ {
+		if established[i] {
+			fails = append(fails, cur)
+			gaps = append(gaps, curGaps)
+			cur, curGaps = 0, []int64{}
+			continue
+		}
+		cur++
+		e, okE := endedAt[i]
+		a, okA := acceptAt[i+1]
+		if !okE || !okA {
+			curGaps = append(curGaps, -1) // no further attempt seen after this failure
+		} else {
+			g := a.Sub(e).Nanoseconds()
+			if g < 0 {
+				g = 0
+			}
+			curGaps = append(curGaps, g)
+		}
+	}
+	if cur > 0 {
+		fails = append(fails, cur)
+		gaps = append(gaps, curGaps)
+	}
+	in.smFails, in.smGaps = fails, gaps
+	// observation compared with the model: per outage, per failed attempt n, the bound that
+	// applies (defaults: 20 ms * 2^n up to three minutes) -- or, when the wait was longer than
+	// bound + slack, the wait itself
+	outs := make([]Sx, len(gaps))
+	for o, gs := range gaps {
+		items := make([]Sx, len(gs))
+		for n, g := range gs {
+			bound := new(big.Int).Mul(c19Expect(20, 2, 180000, n), big.NewInt(c19Ms)).Int64()
+			if g >= 0 && g <= bound+c19SlackMs*c19Ms {
+				items[n] = L(Z(0), Z(bound))
+			} else {
+				items[n] = L(Z(2), Z(bound), Z(g))
+			}
+		}
+		outs[o] = LS(items)
+	}
+	return LS(outs)
+}
+
+func c19OracleSM(in *c19In) (string, string) {
+	if in.smErr != "" {
+		return "stream-manager scenario did not complete: " + in.smErr, "sm-scenario-incomplete"
+	}
+	if fmt.Sprint(in.smFails) != fmt.Sprint(in.Outages) {
+		return fmt.Sprintf("failed attempts per outage seen by the server %v, scenario scripted %v", in.smFails, in.Outages), "sm-attempts"
+	}
+	slack := int64(c19SlackMs) * c19Ms
+	for o, gs := range in.smGaps {
+		for n, g := range gs {
+			bound := new(big.Int).Mul(c19Expect(20, 2, 180000, n), big.NewInt(c19Ms)).Int64()
+			if g < 0 {
+				return fmt.Sprintf("outage %d: no connection attempt followed failed attempt %d", o+1, n), "sm-no-retry"
+			}
+			if g > bound+slack {
+				what := "the delay before a reconnection attempt exceeds min(cap, base*factor^n)"
+				if o > 0 {
+					what = "the back-off did not restart at attempt 0 after the successful reconnection"
+				}
+				return fmt.Sprintf("stream manager, outages %v: in outage %d the wait after failed attempt %d (counted from 0) was %d ms; bound 20*2^%d = %d ms (+%d ms slack): %s",
+					in.Outages, o+1, n, g/c19Ms, n, bound/c19Ms, c19SlackMs, what), "sm-wait-above-bound"
+			}
+		}
+	}
+	return "", ""
 }
